@@ -59,11 +59,34 @@ def subst_any(x, m):
     return x
 
 
+def designed_cases(seed, tier):
+    """the parameter reaches a variable only through a chain of initial assignments; that variable's loop update mentions
+    neither the parameter nor any other parameter-dependent variable"""
+    from ..lang.parser import parse_program
+    out = []
+    n = 6 if tier == "quick" else 60
+    for j in range(n):
+        cs = K.harness_seed(seed, ID + "-chain", j)
+        r = random.Random(cs)
+        chain = r.choice(["y = x**2", "y = 2*x + 1", "y = x*x + x", "w = 3*x\ny = w**2"])
+        upd_y = r.choice(["y = 1/2*y + c", "y = y + 1 {1/3} 1/2*y", "y = 1/2*y"])
+        upd_x = r.choice(["x = 1/2*x + 1", "x = x {1/2} 1/2*x", "x = x + c"])
+        text = f"x = p\n{chain}\nz = 0\nc = 0\nwhile true:\n    c = Bernoulli(1/2)\n    {upd_x}\n    {upd_y}\n    z = z + x\nend\n"
+        prog = parse_program(text)
+        pv = program_variables(prog)
+        inits = {v: Fraction(r.randint(1, 9), 7) for v in pv}
+        tests = [Fraction(r.randint(2, 8), 5), Fraction(7 * r.randint(0, 1) + r.choice([1, 2, 3]), 7)]
+        out.append({"id": f"chain-{cs}", "text": text, "ast": prog.to_json(), "param": "p", "param_kind": "real", "inits": K.frac_enc(inits),
+                    "goals": [{"y": 1}, {"z": 1}, {"y": 1, "c": 1}][: r.choice([2, 3])], "N": 4, "tests": [[t.numerator, t.denominator] for t in tests],
+                    "features": ["designed:chained-initial-assignment"]})
+    return out
+
+
 def generate(seed, tier):
-    cases = []
+    cases = designed_cases(seed, tier)
     i = 0
     tries = 0
-    while len(cases) < NCASES[tier] and tries < NCASES[tier] * 6:
+    while len(cases) < NCASES[tier] + 6 and tries < NCASES[tier] * 6:
         tries += 1
         cs = K.harness_seed(seed, ID, tries)
         rng = random.Random(cs)
